@@ -31,6 +31,33 @@ GNU ld's files have that shape.
 Keys: <what>:<kind>:def=<definer>:E=<E kind>[+direct]:taker=<module>:way=<form>[:variant=..][:mix=..];
 a violation seen only under a variant / extra form / mix / PIE is counted under the key of the same
 case without it when that one is violated too.
+
+Axis ALIASES (members `alias-...`, own programs so that the single-name members are unchanged): one data
+object / function defined under 2-3 names
+  binding pattern {S+S, S+W, W+S, S+S+W} (thorough: + W+W, S+W+S, W+S+S), in symbol order
+  x st_size {equal for all names, different per name (data; which name is longest rotates)}
+  x definer {E, A} x E kind {non-PIE, PIE}
+  x which names E accesses directly (every subset: copy relocation / canonical PLT entry) x E's further
+    indirect use (none, GOT or `.quad` through one name)
+  x A: none, one name through GOT or `.quad`, all names through the GOT x B: none, one name / all names
+    through the GOT,
+all alias groups of a member packed into one program. Every (module, name, way) is one site; all sites
+of a group are views of ONE entity: the address must be the same for every name and a write through any
+view visible through every other. Referees: GNU ld and ld.lld on the same member; per alias group the
+referee program with the coarsest address classes is the one that judges it (GNU ld 2.40 knows
+weak->strong aliases only and itself gives a second non-weak name of a copy-relocated object another
+address; ld.lld exports every name at the copy, so the statement is achievable as a whole on that very
+member); where the two programs' classes are not comparable only pairs equal in both are demanded; sites
+that differ in the judging program are counted, not judged. A mixed program is judged against the
+referee whose modules it contains, on the groups where both referees' own programs have the same classes.
+Static: every name of a copy-relocated object that a referee's E defines in .dynsym must be defined in
+wild's E, at the address of the copy.
+Alias keys: alias:<what>:<kind>:bind=<pattern>[:sizes=diff]:def=..:E=..:name=<S|W binding of the
+differing view's name>:Edirect=<none|this|other(<bindings of the other names E accesses directly>)>
+:taker=..:way=..[:mix=..] (the differing view: where E accesses the object directly, every view that is not
+at E's address, otherwise as for single names); a
+violation between two views through the SAME name is not about aliasing: alias:<single-name key>, counted
+under the single-name key when that one is violated too.
 """
 import json
 import os
@@ -48,7 +75,7 @@ import addrident as ad
 INTERP = "/lib64/ld-linux-x86-64.so.2"
 # glibc's ld.so needs malloc in scope once a process has dependencies; never called by the programs.
 LIBC = "/lib/x86_64-linux-gnu/libc.so.6"
-NAME_RE = re.compile(r"\b(fn|dat|ifn|tls|pfn|pdat)_(\d+)\b")
+NAME_RE = re.compile(r"\b(fn|dat|ifn|tls|pfn|pdat|adat|afn)_(\d+)(?:_n\d[a-zA-Z0-9]?)?\b")
 EDIRECT = ("dpc", "d32", "d32s", "d64")
 MAX_LINK_ROUNDS = 60
 MAX_RERUNS = 12
@@ -73,8 +100,8 @@ def link_argv(mod, cfg, d, objs):
 
 
 def run_linker(which, argv, cwd):
-    if which == "gnu":
-        p = subprocess.run(["ld", *argv], cwd=cwd, stdin=subprocess.DEVNULL, stdout=subprocess.PIPE,
+    if which in ("gnu", "lld"):
+        p = subprocess.run(["ld" if which == "gnu" else "ld.lld", *argv], cwd=cwd, stdin=subprocess.DEVNULL, stdout=subprocess.PIPE,
                            stderr=subprocess.PIPE)
         return p.returncode, p.stderr.decode("utf-8", "replace")
     for _ in range(3):
@@ -146,30 +173,65 @@ def run_program(d, insts, sites, live, order):
 
 
 # ------------------------------------------------------------------------------------------ judging
-def ectx(cfg, inst):
-    direct = any(w in ad.DIRECT for w in inst.uses["E"])
+def ectx(cfg, inst, nm=None):
+    """nm: alias instances - only E's direct uses of that name count."""
+    direct = any(w in ad.DIRECT and (nm is None or j == nm) for w, j in map(ad.split_use, inst.uses["E"]))
     return f"def={cfg['definer']}:E={cfg['ekind']}" + ("+direct" if direct else "")
 
 
+def label(inst, s):
+    return f"{s.mod}.{s.way}" + (f"[n{s.nm}]" if inst.names else "")
+
+
+def alias_info(inst, nm, ref_nm=None):
+    """Key parts of a violation on an alias instance seen through name nm (ref_nm: the name of the view
+    it is compared with)."""
+    if not inst.names:
+        return None
+    dset = sorted({j for w, j in map(ad.split_use, inst.uses["E"]) if w in ad.DIRECT})
+    oth = "".join(sorted({inst.names[j] for j in dset if j != nm}))
+    edirect = f"other({oth})" if oth else "this" if nm in dset else "none"
+    return dict(bind="".join(inst.names), sizes="diff" if len(set(inst.sizes)) > 1 else "same",
+                name=inst.names[nm], edirect=edirect, same_name=ref_nm == nm)
+
+
 def describe(cfg, inst):
-    return (f"{ad.sym(inst)} ({ad.KNAME[inst.kind]}, defined in {cfg['definer']}) uses "
+    what = ad.KNAME[inst.kind]
+    if inst.names:
+        what = (f"ONE {what} under the names " +
+                ", ".join(f"n{j}={ad.sym(inst, j)}({'weak' if b == 'W' else 'global'}, st_size {inst.sizes[j]})"
+                          for j, b in enumerate(inst.names)))
+    return (f"{ad.sym(inst)} ({what}, defined in {cfg['definer']}) uses "
             f"E={{{','.join(inst.uses['E'])}}} A={{{','.join(inst.uses['A'])}}} B={{{','.join(inst.uses['B'])}}} "
             f"[{cfg['ekind']} {cfg['bind']} {cfg['variant']}]")
 
 
-def V(cfg, inst, cat, what, mix=None, extra=None, taker=None, way=None):
-    """One violation record; the key is assembled (and folded) from its parts."""
-    return dict(cat=cat, kind=ad.KNAME[inst.kind], kcode=inst.kind, ctx=ectx(cfg, inst), extra=extra, taker=taker,
+def V(cfg, inst, cat, what, mix=None, extra=None, taker=None, way=None, nm=0, ref_nm=None):
+    """One violation record; the key is assembled (and folded) from its parts. nm / ref_nm (alias
+    instances): the name of the differing view / of the view it is compared with."""
+    al = alias_info(inst, nm, ref_nm)
+    return dict(cat=cat, kind=ad.KNAME[inst.kind], kcode=inst.kind,
+                ctx=ectx(cfg, inst, nm if al and al["same_name"] else None),
+                plainctx=f"def={cfg['definer']}:E={cfg['ekind']}", alias=al, extra=extra, taker=taker,
                 way=way, variant=cfg["variant"], mix=mix, ekind=cfg["ekind"], what=what, idx=inst.idx,
                 nsites=sum(len(u) for u in inst.uses.values()))
 
 
-def keystr(p, variant=None, way=None, mix=0, nonpie=False):
+def keystr(p, variant=None, way=None, mix=0, nonpie=False, samesize=False, base=False):
     variant = p["variant"] if variant is None else variant
     way = p["way"] if way is None else way
     mix = p["mix"] if mix == 0 else mix
-    ctx = p["ctx"].replace("E=pie", "E=nonpie") if nonpie else p["ctx"]
+    al = p.get("alias")
+    if al and not al["same_name"]:
+        ctx = (f"bind={al['bind']}" + (":sizes=diff" if al["sizes"] == "diff" and not samesize else "") +
+               f":{p['plainctx']}:name={al['name']}:Edirect={al['edirect']}")
+    else:
+        ctx = p["ctx"]
+    if nonpie:
+        ctx = ctx.replace("E=pie", "E=nonpie")
     s = f"{p['cat']}:{p['kind']}:{ctx}"
+    if al and not (base and al["same_name"]):
+        s = "alias:" + s
     if p["extra"]:
         s += ":" + p["extra"]
     if p["taker"]:
@@ -194,6 +256,8 @@ def core_form(p):
         return "call"
     if w in EDIRECT and p["taker"] == "E":
         return "d32" if ad.KCLASS[p["kcode"]] == "func" and p["ekind"] == "nonpie" else "dpc"
+    if w == "data" and p.get("alias") and not p["alias"]["same_name"] and p["taker"] != "E":
+        return "got"        # a library's `.quad` and GOT references to a name resolve alike
     return w
 
 
@@ -203,12 +267,12 @@ def folded_key(p, present):
     the core form / in the all-wild program / with a non-PIE, it is counted under that key (one root
     cause = few keys)."""
     own = keystr(p)
-    gens = [(gv, gw, gm, ge) for gv in (True, False) for gw in (True, False) for gm in (True, False)
-            for ge in (True, False)]
+    tf = (True, False)
+    gens = [(gv, gw, gm, ge, gs, gb) for gv in tf for gw in tf for gm in tf for ge in tf for gs in tf for gb in tf]
     gens.sort(key=lambda t: -sum(t))
-    for gv, gw, gm, ge in gens:
+    for gv, gw, gm, ge, gs, gb in gens:
         cand = keystr(p, variant="plain" if gv else None, way=core_form(p) if gw and p["way"] else None,
-                      mix=None if gm else 0, nonpie=ge)
+                      mix=None if gm else 0, nonpie=ge, samesize=gs, base=gb)
         if cand != own and cand in present:
             return cand
     return own
@@ -222,8 +286,26 @@ def ref_priority(st):
     return (_PRI_MOD[st.mod], _PRI_WAY.get(st.way, 2), st.sid)
 
 
-def judge(cfg, insts, sites, live, g, w, stats, mix=None):
-    """g: GNU ld's program, w: the program under test. -> list of violation records."""
+def referees_agree(insts, sites, live, refs):
+    """Instances on which all referee programs have the same address classes."""
+    out = set()
+    by_inst = {}
+    for st in sites:
+        if st.idx in live and st.role == "obs" and ad.is_addr(st.way):
+            by_inst.setdefault(st.idx, []).append(st.sid)
+    for idx, sids in by_inst.items():
+        shapes = set()
+        for _, g in refs:
+            first = {}
+            shapes.add(tuple(first.setdefault(g["addr"].get((0, sid)), len(first)) for sid in sids))
+        if len(shapes) == 1:
+            out.add(idx)
+    return out
+
+
+def judge(cfg, insts, sites, live, refs, w, stats, mix=None, restrict=None):
+    """refs: [(referee name, its program)] - GNU ld's program (alias members: and ld.lld's); w: the
+    program under test; restrict: judge these instances only. -> list of violation records."""
     viol = []
     obs = {}
     wrs = {}
@@ -232,28 +314,36 @@ def judge(cfg, insts, sites, live, g, w, stats, mix=None):
             continue
         (obs if st.role == "obs" else wrs).setdefault(st.idx, []).append(st)
     by_sid = {s.sid: s for s in sites}
-    trusted = {None: (), "wildE+gnuAB": ("A", "B"), "gnuE+wildAB": ("E",)}[mix]
-    gcr = {c[0] for c in g["crashed"]}
+    trusted = {None: (), "wildE+gnuAB": ("A", "B"), "gnuE+wildAB": ("E",), "wildE+lldAB": ("A", "B"),
+               "lldE+wildAB": ("E",)}[mix]
+    rnames = " / ".join(n for n, _ in refs)
+    gcr = {c[0] for _, g in refs for c in g["crashed"]}
+    gskipped = {i for _, g in refs for i in g["skipped"]}
     for idx, sid, phase, rc in w["crashed"]:
         inst = insts[idx]
         st = by_sid[sid]
-        if idx in gcr:
+        if idx in gcr or (restrict is not None and idx not in restrict):
             continue
         viol.append(V(cfg, inst, "crash",
                       f"the program dies (rc={rc}) in phase {phase} at {st.mod}'s `{st.way}` site of "
-                      f"{describe(cfg, inst)}; GNU ld's program does not", mix, taker=st.mod, way=st.way))
+                      f"{describe(cfg, inst)}; the program of {rnames} does not", mix, taker=st.mod, way=st.way,
+                      nm=st.nm))
     for inst in insts:
         idx = inst.idx
         if idx not in live:
             continue
-        if idx in gcr or idx in g["skipped"]:
+        if restrict is not None and idx not in restrict:
+            stats["mix_not_judged_referees_differ"] += 1
+            continue
+        if idx in gcr or idx in gskipped:
             stats["excluded_gnu_crash"] += 1
             continue
         if idx in w["skipped"]:
             continue
         cls = ad.KCLASS[inst.kind]
         asites = [s for s in obs.get(idx, []) if ad.is_addr(s.way)]
-        if any((0, s.sid) not in g["addr"] for s in asites) or any((0, s.sid) not in w["addr"] for s in asites):
+        if any((0, s.sid) not in g["addr"] for _, g in refs for s in asites) \
+                or any((0, s.sid) not in w["addr"] for s in asites):
             stats["incomplete"] += 1
             continue
         stats["evaluations"] += 1
@@ -264,16 +354,43 @@ def judge(cfg, insts, sites, live, g, w, stats, mix=None):
 
         def read_ok(s):
             return w["reads"].get((0, s.sid)) == exp0
-        # --- address identity, within GNU ld's equivalence classes
+        # --- address identity, within the equivalence classes of ONE referee program: the referee whose
+        # classes are the coarsest (every pair it separates is separated by the others too), so that the
+        # demand as a whole is met by a real linker on this very member. Where the referees' classes are
+        # not comparable, only what all of them show is demanded (counted).
+        parts = [{s.sid: g["addr"][(0, s.sid)] for s in asites} for _, g in refs]
+
+        def coarser(p, q):
+            m = {}
+            return all(m.setdefault(q[sid], p[sid]) == p[sid] for sid in p)
+        best = next((i for i, p in enumerate(parts) if all(coarser(p, q) for q in parts)), None)
+        if best is None:
+            stats["referees_incomparable"] += 1
+            jrefs = refs
+            cls_of = {s.sid: tuple(p[s.sid] for p in parts) for s in asites}
+        else:
+            jrefs = [refs[best]]
+            cls_of = parts[best]
+        jnames = " and ".join(n for n, _ in jrefs)
         groups = {}
         for s in asites:
-            groups.setdefault(g["addr"][(0, s.sid)], []).append(s)
+            groups.setdefault(cls_of[s.sid], []).append(s)
+        per_ref_classes = [len(set(p.values())) for p in parts]
+        if inst.names:
+            stats["alias_views"] += len({(s.mod, s.nm) for s in asites})
+            if best is not None and best > 0 and per_ref_classes[0] > len(groups):
+                stats["alias_gnu_splits_lld_unites"] += 1
+                stats["alias_gnu_split_classes"].add(
+                    f"{ad.KNAME[inst.kind]}:bind={''.join(inst.names)}:def={cfg['definer']}:E={cfg['ekind']}")
         if len(groups) > 1:
             stats["may_differ_instances"] += 1
-            stats["may_differ_classes"].add(f"{ad.KNAME[inst.kind]}:{ectx(cfg, inst)}:{cfg['variant']}")
-        elif len({s.mod for s in asites}) >= 2:
+            stats["may_differ_classes"].add(
+                ("alias:" + "".join(inst.names) + ":" if inst.names else "") +
+                f"{ad.KNAME[inst.kind]}:{ectx(cfg, inst)}:{cfg['variant']}")
+        elif len({s.mod for s in asites}) >= 2 or len({(s.mod, s.nm) for s in asites}) >= 2:
             stats["nontrivial"].add((cfg["ekind"], cfg["bind"], cfg["definer"], cfg["variant"], inst.kind,
-                                     inst.uses["E"], inst.uses["A"], inst.uses["B"]))
+                                     inst.uses["E"], inst.uses["A"], inst.uses["B"]) +
+                                    ((inst.names, inst.sizes) if inst.names else ()))
         blamed = set()
         for members in groups.values():
             if len(members) < 2:
@@ -284,29 +401,39 @@ def judge(cfg, insts, sites, live, g, w, stats, mix=None):
                 by_addr.setdefault(wa(s), []).append(s)
             if len(by_addr) == 1:
                 continue
-            # The reference view: in a mixed program the one of a module GNU ld linked; then
+            # The reference view: in a mixed program the one of a module the referee linked; then
             # the address behind which most modules find the entity, then the one
             # most modules agree on, then the one a pure taker (B, then A) obtains through its GOT.
             ref_addr = min(by_addr, key=lambda a: (-any(s.mod in trusted for s in by_addr[a]),
                                                    -len({s.mod for s in by_addr[a] if read_ok(s)}),
                                                    -len({s.mod for s in by_addr[a]}),
                                                    min(ref_priority(s) for s in by_addr[a])))
-            ref = min(by_addr[ref_addr], key=ref_priority)
-            allw = " ".join(f"{x.mod}.{x.way}={wa(x):#x}" for x in asites)
-            allg = " ".join(f"{x.mod}.{x.way}={g['addr'][(0, x.sid)]:#x}" for x in asites)
+            if inst.names and cls == "data":
+                # Aliased data: where E accesses the object directly, E's view is fixed at link time (the
+                # copy): that is where the object is, every other view is the one that differs.
+                edir = {wa(s) for s in members if s.mod == "E" and s.way in ad.DIRECT}
+                if len(edir) == 1:
+                    ref_addr = edir.pop()
+            allw = " ".join(f"{label(inst, x)}={wa(x):#x}" for x in asites)
+            allg = "; ".join(f"{n}'s program: " + " ".join(f"{label(inst, x)}={g['addr'][(0, x.sid)]:#x}"
+                                                           for x in asites) for n, g in refs)
             for s in members:
                 if wa(s) != ref_addr:
+                    # compared, where there is one, with a view through the same name
+                    ref = min(by_addr[ref_addr], key=lambda x: (x.nm != s.nm, ref_priority(x)))
                     blamed.add(s.sid)
                     viol.append(V(cfg, inst, "addr-differs",
-                                  f"{describe(cfg, inst)}: {s.mod}.{s.way} sees {wa(s):#x} but {ref.mod}.{ref.way} "
-                                  f"sees {ref_addr:#x}; program under test: {allw}; GNU ld's program (these sites "
-                                  f"equal there): {allg}", mix, taker=s.mod, way=s.way))
+                                  f"{describe(cfg, inst)}: {label(inst, s)} sees {wa(s):#x} but {label(inst, ref)} "
+                                  f"sees {ref_addr:#x}; program under test: {allw}; these sites are equal in "
+                                  f"the program of {jnames}; {allg}", mix, taker=s.mod, way=s.way,
+                                  nm=s.nm, ref_nm=ref.nm))
         # --- what is found behind the address (phase 0)
         bad_target = False
         for s in obs.get(idx, []):
-            gr, wr_ = g["reads"].get((0, s.sid)), w["reads"].get((0, s.sid))
-            if gr != exp0 or wr_ is None:
-                if gr != exp0:
+            wr_ = w["reads"].get((0, s.sid))
+            g_ok = all(g["reads"].get((0, s.sid)) == exp0 for _, g in jrefs)
+            if not g_ok or wr_ is None:
+                if not g_ok:
                     stats["excluded_gnu_read"] += 1
                 continue
             if wr_ != exp0:
@@ -317,20 +444,22 @@ def judge(cfg, insts, sites, live, g, w, stats, mix=None):
                 if s.sid in blamed:
                     continue                           # already reported as the differing view
                 viol.append(V(cfg, inst, "wrong-target",
-                              f"{describe(cfg, inst)}: through {s.mod}.{s.way} (address "
+                              f"{describe(cfg, inst)}: through {label(inst, s)} (address "
                               f"{w['addr'].get((0, s.sid), 0):#x}) the program finds {wr_[0]:#x},{wr_[1]:#x} instead "
-                              f"of the entity's {exp0[0]:#x},{exp0[1]:#x}", mix, taker=s.mod, way=s.way))
+                              f"of the entity's {exp0[0]:#x},{exp0[1]:#x}", mix, taker=s.mod, way=s.way,
+                              nm=s.nm, ref_nm=s.nm))
         # --- writes (a consequence of the above when addresses already differ: reported only otherwise)
         if cls == "func":
             continue
         cur = exp0
         own_values = {exp0} | {ad.written(m, inst) for m in ad.MODULES}
         for n, wm in enumerate(ad.MODULES, 1):
-            if any(s.mod == wm for s in wrs.get(idx, [])):
+            wsite = next((s for s in wrs.get(idx, []) if s.mod == wm), None)
+            if wsite is not None:
                 cur = ad.written(wm, inst)
             for s in obs.get(idx, []):
-                gr, wr_ = g["reads"].get((n, s.sid)), w["reads"].get((n, s.sid))
-                if gr != cur:
+                wr_ = w["reads"].get((n, s.sid))
+                if not all(g["reads"].get((n, s.sid)) == cur for _, g in jrefs):
                     stats["excluded_gnu_write_invisible"] += 1
                     continue
                 stats["write_reads"] += 1
@@ -346,8 +475,9 @@ def judge(cfg, insts, sites, live, g, w, stats, mix=None):
                     got = "nothing" if wr_ is None else f"{wr_[0]:#x},{wr_[1]:#x}"
                     viol.append(V(cfg, inst, "write-invisible",
                                   f"{describe(cfg, inst)}: after {wm} wrote {cur[0]:#x},{cur[1]:#x} through its "
-                                  f"view, {s.mod}.{s.way} reads {got} (phase {n}); GNU ld's program sees the write",
-                                  mix, extra=f"writer={wm}:reader={s.mod}"))
+                                  f"view, {label(inst, s)} reads {got} (phase {n}); the program of {jnames} sees "
+                                  f"the write", mix, extra=f"writer={wm}:reader={s.mod}", nm=s.nm,
+                                  ref_nm=wsite.nm if wsite is not None else None))
     return viol
 
 
@@ -391,7 +521,7 @@ def static_oracle(cfg, insts, sites, live, gd, wd, w, stats):
         if st.role == "obs" and st.idx in live:
             by_inst.setdefault(st.idx, []).append(st)
     for inst in insts:
-        if inst.idx not in live or cfg["definer"] != "A":
+        if inst.idx not in live or cfg["definer"] != "A" or inst.names:
             continue
         cls = ad.KCLASS[inst.kind]
         name = ad.sym(inst)
@@ -470,12 +600,63 @@ def static_oracle(cfg, insts, sites, live, gd, wd, w, stats):
     return viol
 
 
+def static_alias_oracle(cfg, insts, live, refdirs, wd, stats):
+    """Copy-relocated data object with several names: every name that a referee's E defines in its
+    .dynsym (that is: exports at its copy) must be defined in wild's E too, and all names wild's E
+    defines must have the address of wild's copy. Applied where wild's E copy-relocates the object."""
+    viol = []
+    try:
+        R = [(n, _dyn_index(os.path.join(d, "E"))) for n, d in refdirs]
+        W = _dyn_index(os.path.join(wd, "E"))
+        LA = {s.name: s.index for s in elfread.Elf(os.path.join(wd, "libA.so")).symbols(".dynsym") if s.name}
+    except (elfread.ElfError, OSError) as ex:
+        stats["static_unreadable"] += 1
+        stats["static_unreadable_message"] = str(ex)[:300]
+        return viol
+    for inst in insts:
+        if inst.idx not in live or not inst.names or cfg["definer"] != "A" or ad.KCLASS[inst.kind] != "data":
+            continue
+        names = [ad.sym(inst, j) for j in range(len(inst.names))]
+        wcopy = [(nm, r) for nm in names for r in W[2].get(nm, []) if r[0] == 5]
+        if not wcopy:
+            continue
+        stats["static_alias_copyreloc"] += 1
+        # the order in which the library's dynamic symbol table (which the linker of E walks) lists the names
+        if all(nm in LA for nm in names):
+            stats["alias_dynsym_order"].add("<".join(f"n{j}" for j in sorted(range(len(names)),
+                                                                             key=lambda j: LA[names[j]])))
+        copy_addr = wcopy[0][1][1]
+        wdef = {nm: W[1][nm] for nm in names if nm in W[1] and W[1][nm].shndx != 0}
+        for j, nm in enumerate(names):
+            exporters = [n for n, (_, syms, by_sym, _, _) in R
+                         if nm in syms and syms[nm].shndx != 0 and
+                         any(r[0] == 5 for x in names for r in by_sym.get(x, []))]
+            if not exporters:
+                continue
+            stats["static_alias_names"] += 1
+            if nm not in wdef:
+                have = "absent" if nm not in W[1] else "undefined"
+                viol.append(V(cfg, inst, "static:alias-not-exported",
+                              f"{describe(cfg, inst)}: wild's E copy-relocates the object (R_X86_64_COPY against "
+                              f"{wcopy[0][0]} at {copy_addr:#x}) but its .dynsym does not define {nm} ({have}), so "
+                              f"a library's reference to {nm} resolves to the library's original, not to the "
+                              f"copy; E of {' / '.join(exporters)} defines it at its copy", nm=j))
+            elif wdef[nm].value != copy_addr:
+                viol.append(V(cfg, inst, "static:alias-not-at-copy",
+                              f"{describe(cfg, inst)}: wild's E defines {nm} at {wdef[nm].value:#x} but the copy "
+                              f"relocation (against {wcopy[0][0]}) is at {copy_addr:#x}", nm=j))
+    return viol
+
+
 # ------------------------------------------------------------------------------------------ one member
 def new_stats():
     return dict(evaluations=0, pairs=0, write_reads=0, write_invisible_reads=0, may_differ_instances=0,
                 clobbered_by_other_instance=0, may_differ_classes=set(), nontrivial=set(), excluded_gnu_crash=0, excluded_gnu_read=0,
                 excluded_gnu_write_invisible=0, incomplete=0, plt_call_wrong=0, static_canonical_plt=0,
-                static_copyreloc=0, static_lib_refs=0, static_unreadable=0)
+                static_copyreloc=0, static_lib_refs=0, static_unreadable=0, alias_views=0,
+                alias_gnu_splits_lld_unites=0, alias_gnu_split_classes=set(), static_alias_copyreloc=0,
+                static_alias_names=0, alias_dynsym_order=set(), referees_incomparable=0,
+                mix_not_judged_referees_differ=0)
 
 
 def signature(inst, mod):
@@ -483,6 +664,7 @@ def signature(inst, mod):
 
 
 MIXES = {"wildE+gnuAB": ("wild", "gnu"), "gnuE+wildAB": ("gnu", "wild")}
+LLD_MIXES = {"wildE+lldAB": ("wild", "lld"), "lldE+wildAB": ("lld", "wild")}
 
 
 def compose(d, name, dirs, e_from, lib_from):
@@ -499,15 +681,18 @@ def compose(d, name, dirs, e_from, lib_from):
 def run_member(item):
     cfg, base, only = item
     t0 = time.time()
-    tag = f"{cfg['ekind']}-{cfg['bind']}-def{cfg['definer']}-{cfg['variant']}"
+    alias = cfg.get("axis") == "alias"
+    tag = ("alias-" if alias else "") + f"{cfg['ekind']}-{cfg['bind']}-def{cfg['definer']}-{cfg['variant']}"
     d = os.path.join(base, tag + ("-only" if only else ""))
-    gd, wd = os.path.join(d, "gnu"), os.path.join(d, "wild")
-    insts = ad.build_instances(cfg["kinds"], cfg["definer"], cfg["ekind"], cfg["variant"], cfg["level"])
+    gd, wd, ld_ = os.path.join(d, "gnu"), os.path.join(d, "wild"), os.path.join(d, "lld")
+    build = ad.build_alias_instances if alias else ad.build_instances
+    insts = build(cfg["kinds"], cfg["definer"], cfg["ekind"], cfg["variant"], cfg["level"])
     sites = ad.build_sites(insts)
     order = ad.expected_order(insts, sites)
     live = set(i.idx for i in insts) if only is None else set(only)
     res = dict(cfg=cfg, tag=tag, n_instances=len(insts), n_sites=len(sites), viol=[], spawns=0,
-               gnu_rejects={}, wild_rejects={}, unevaluable=None, rounds=0, mix_unevaluable={})
+               gnu_rejects={}, lld_rejects={}, wild_rejects={}, unevaluable=None, rounds=0, mix_unevaluable={},
+               alias=alias)
     stats = new_stats()
     mstats = new_stats()
     res["stats"], res["mix_stats"] = stats, mstats
@@ -518,9 +703,11 @@ def run_member(item):
         objs = {m: vlib.assemble(ad.module_src(m, li, ls, cfg["definer"], len(insts))) for m in ad.MODULES}
         res["spawns"] += 3
         retry = False
-        for which, wdir, rej in (("gnu", gd, res["gnu_rejects"]), ("wild", wd, res["wild_rejects"])):
+        linkers = [("gnu", gd, res["gnu_rejects"])] + ([("lld", ld_, res["lld_rejects"])] if alias else []) + \
+                  [("wild", wd, res["wild_rejects"])]
+        for which, wdir, rej in linkers:
             ok, mod, msg = link_member(which, cfg, wdir, objs)
-            res["spawns"] += 3 if which == "gnu" else 0
+            res["spawns"] += 3 if which != "wild" else 0
             if ok:
                 continue
             names = {(k, int(n)) for k, n in NAME_RE.findall(msg)}
@@ -553,25 +740,44 @@ def run_member(item):
     g = run_program(gd, insts, sites, live, order)
     w = run_program(wd, insts, sites, live, order)
     res["spawns"] += 2 + g["reruns"] + w["reruns"]
-    if g["startup"]:
-        res["unevaluable"] = f"GNU ld's program: {g['startup']}"
+    refs = [("GNU ld", g)]
+    if alias:
+        l = run_program(ld_, insts, sites, live, order)
+        res["spawns"] += 1 + l["reruns"]
+        refs.append(("ld.lld", l))
+    bad_ref = next((f"{n}'s program: {r['startup']}" for n, r in refs if r["startup"]), None)
+    if bad_ref:
+        res["unevaluable"] = bad_ref
     elif w["startup"]:
         res["unevaluable"] = f"wild's program does not run: {w['startup']}"
         res["wild_startup"] = w["startup"]
     else:
-        res["viol"] = judge(cfg, insts, sites, live, g, w, stats)
-        res["viol"] += static_oracle(cfg, insts, sites, live, gd, wd, w, stats)
-    if not g["startup"] and cfg.get("mixes", True):
-        # The same modules recombined: isolates which wild-linked module breaks the identity.
-        for name, (e_from, lib_from) in MIXES.items():
-            md = compose(d, name, {"gnu": gd, "wild": wd}, e_from, lib_from)
+        res["viol"] = judge(cfg, insts, sites, live, refs, w, stats)
+        if alias:
+            res["viol"] += static_alias_oracle(cfg, insts, live, [("GNU ld", gd), ("ld.lld", ld_)], wd, stats)
+        else:
+            res["viol"] += static_oracle(cfg, insts, sites, live, gd, wd, w, stats)
+    if not bad_ref and cfg.get("mixes", True):
+        # The same modules recombined: isolates which wild-linked module breaks the identity. A mixed
+        # program is judged against the referee whose modules it contains.
+        dirs = {"gnu": gd, "wild": wd, "lld": ld_}
+        # Alias groups: a mixed program combines wild's module with one referee's, so it can be judged only
+        # where both referees' own programs have the same classes (where ld.lld's E exports a name that GNU
+        # ld's does not, wild's E next to GNU ld's libraries rightly differs from the all-GNU program).
+        agree = referees_agree(insts, sites, live, refs) if alias else None
+        lld_mixes = alias and cfg["level"] == "full"       # quick tier: the two GNU ld mixes only
+        for name, (e_from, lib_from) in list(MIXES.items()) + (list(LLD_MIXES.items()) if lld_mixes else []):
+            md = compose(d, name, dirs, e_from, lib_from)
             m = run_program(md, insts, sites, live, order)
             res["spawns"] += 1 + m["reruns"]
             if m["startup"]:
                 res["mix_unevaluable"][name] = m["startup"][-300:]
                 continue
-            res["viol"] += judge(cfg, insts, sites, live, g, m, mstats, mix=name)
-    res["sample"] = [dict(symbol=ad.sym(i), kind=ad.KNAME[i.kind], uses=i.uses) for i in li[::max(1, len(li) // 3)][:3]]
+            res["viol"] += judge(cfg, insts, sites, live, [refs[1] if "lld" in name else refs[0]], m, mstats,
+                                 mix=name, restrict=agree)
+    res["sample"] = [dict(symbol=ad.sym(i), kind=ad.KNAME[i.kind], uses=i.uses,
+                          **({"names": "".join(i.names), "st_sizes": i.sizes} if i.names else {}))
+                     for i in li[::max(1, len(li) // 3)][:3]]
     res["wall"] = time.time() - t0
     return _pack(res)
 
@@ -579,6 +785,8 @@ def run_member(item):
 def _pack(res):
     for s in (res["stats"], res["mix_stats"]):
         s["may_differ_classes"] = sorted(s["may_differ_classes"])
+        s["alias_gnu_split_classes"] = sorted(s["alias_gnu_split_classes"])
+        s["alias_dynsym_order"] = sorted(s["alias_dynsym_order"])
         s["nontrivial"] = list(s["nontrivial"])
     # one representative (the instance with the fewest sites) per own key, with the number of instances
     best, counts = {}, {}
@@ -598,7 +806,7 @@ def members(tier):
         kinds, level = ["fn", "dat"], "core"
         binds, variants = ["lazy"], ["plain"]
     else:
-        kinds, level = list(ad.KINDS), "full"
+        kinds, level = list(ad.BASE_KINDS), "full"
         binds, variants = ["lazy", "now"], ["plain", "bsym", "bsymfn", "nocopy"]
     for ekind in ("nonpie", "pie"):
         for bind in binds:
@@ -608,6 +816,15 @@ def members(tier):
                         continue            # nothing of E's own can be copy-relocated
                     out.append(dict(ekind=ekind, bind=bind, definer=definer, variant=variant, kinds=kinds,
                                     level=level))
+    # axis ALIASES: own members (own programs), so that the single-name members stay as they were
+    for ekind in ("nonpie", "pie"):
+        for bind in binds:
+            for definer in ("A", "E"):
+                for variant in (["plain"] if tier == "quick" else ["plain", "bsym"]):
+                    if variant == "bsym" and (definer == "E" or bind == "now"):
+                        continue            # -Bsymbolic acts on A's own definitions only; lazy only
+                    out.append(dict(axis="alias", ekind=ekind, bind=bind, definer=definer, variant=variant,
+                                    kinds=["adat", "afn"], level=level))
     return out
 
 
@@ -649,6 +866,8 @@ def main():
     tot, mtot = new_stats(), new_stats()
     spawns = 0
     uneval, mix_uneval, gnu_rej, wild_rej, samples, per_member = {}, {}, {}, {}, [], {}
+    lld_rej, alias_samples = {}, []
+    n_alias_inst = n_alias_members = alias_eval = 0
     with vlib.scratch("c38") as base:
         results = wildrun.pmap(run_member, [(m, base, None) for m in mem], procs=min(vlib.NPROC, 12), chunksize=1)
     n_inst = n_sites = 0
@@ -663,6 +882,8 @@ def main():
                 if isinstance(v, int):
                     acc[k] += v
             acc["may_differ_classes"].update(s["may_differ_classes"])
+            acc["alias_gnu_split_classes"].update(s["alias_gnu_split_classes"])
+            acc["alias_dynsym_order"].update(s["alias_dynsym_order"])
             acc["nontrivial"].update(tuple(tuple(x) if isinstance(x, list) else x for x in t) for t in s["nontrivial"])
         per_member[res["tag"]] = dict(instances=res["n_instances"], sites=res["n_sites"],
                                       judged=res["stats"]["evaluations"], link_rounds=res["rounds"],
@@ -676,6 +897,13 @@ def main():
             gnu_rej.setdefault(k, dict(v, members=0))["members"] += 1
         for k, v in res["wild_rejects"].items():
             wild_rej.setdefault(k, dict(v, members=0))["members"] += 1
+        for k, v in res["lld_rejects"].items():
+            lld_rej.setdefault(k, dict(v, members=0))["members"] += 1
+        if res["alias"]:
+            n_alias_members += 1
+            n_alias_inst += res["n_instances"]
+            alias_eval += res["stats"]["evaluations"]
+            alias_samples.extend(dict(member=res["tag"], **x) for x in res.get("sample", [])[1:2])
         samples.extend(dict(member=res["tag"], **x) for x in res.get("sample", [])[:1])
         records.extend((res, p) for p in res["viol"])
         if res.get("wild_startup"):
@@ -704,8 +932,8 @@ def main():
                            f"{' ' + p['mix'] if p['mix'] else ''}] {p['what']}{more}",
                       {"member": res["cfg"], "instance": p["idx"], "own_key": p["own"],
                        "how": "checks/c38.py --replay <this file> rebuilds the member restricted to the instance "
-                              "(then the whole member) with wild and GNU ld, runs the all-wild and the two "
-                              "mixed programs and re-judges them"})
+                              "(then the whole member) with wild and GNU ld (alias members: and ld.lld), runs "
+                              "the all-wild and the mixed programs and re-judges them"})
     if len(uneval) == len(mem):
         chk.machinery(f"no member could be evaluated: {list(uneval.items())[:2]}")
     chk.coverage = {
@@ -727,21 +955,49 @@ def main():
         "excluded_gnu_write_invisible": tot["excluded_gnu_write_invisible"],
         "excluded_gnu_crash": tot["excluded_gnu_crash"], "incomplete_instances": tot["incomplete"],
         "plt_call_results_wrong_out_of_scope": tot["plt_call_wrong"],
-        "gnu_ld_rejects": gnu_rej, "wild_rejects_counted_not_judged": wild_rej,
+        "gnu_ld_rejects": gnu_rej, "ld_lld_rejects": lld_rej, "wild_rejects_counted_not_judged": wild_rej,
+        "alias_axis": {
+            "members": n_alias_members, "alias_groups_generated": n_alias_inst, "alias_groups_judged": alias_eval,
+            "views_module_x_name": tot["alias_views"],
+            "groups_where_gnu_ld_program_has_more_addresses_than_required_judged_by_ld_lld":
+                tot["alias_gnu_splits_lld_unites"],
+            "classes_of_those": sorted(tot["alias_gnu_split_classes"]),
+            "groups_where_the_referees_classes_are_not_comparable_only_common_pairs_demanded":
+                tot["referees_incomparable"],
+            "mixed_program_groups_not_judged_because_referees_differ": mtot["mix_not_judged_referees_differ"],
+            "static_copy_relocated_groups_checked": tot["static_alias_copyreloc"],
+            "static_exported_names_checked": tot["static_alias_names"],
+            "orders_of_the_names_in_libA_dynsym_seen": sorted(tot["alias_dynsym_order"]),
+            "samples": alias_samples[:8],
+            "thinned_in_quick": "E's extra indirect use is GOT only for 3 names and for functions; functions: A "
+                                "without `.quad`, B in {none, all names}; different st_size: A and B in {none, "
+                                "all names through the GOT}; patterns W+W, S+W+S, W+S+S, -z now, -Bsymbolic on A, "
+                                "the unthinned use lists and the two mixed programs with ld.lld's modules are "
+                                "thorough only; in both tiers a module has at most one indirect use per group "
+                                "besides 'all names through the GOT' (no full power set of (name, way) per module)",
+        },
         "static_canonical_plt_checked": tot["static_canonical_plt"],
         "static_copyreloc_checked": tot["static_copyreloc"], "static_library_refs_checked": tot["static_lib_refs"],
         "static_outputs_unreadable": tot["static_unreadable"],
         "violating_instance_evaluations_per_key": inst_per_key,
         "keys_folded": {k: sorted(v) for k, v in folded_from.items()},
-        "subprocesses": spawns, "per_member": per_member, "samples": samples[:12],
+        "subprocesses": spawns, "per_member": per_member, "samples": samples[:12] + alias_samples[:4],
         "exhaustive": not uneval and not mix_uneval,
         "explanation": "every member of the stated product is generated, linked by wild (3 links, in-process "
                        "server) and GNU ld (3 links); the all-wild, all-GNU and two mixed programs (wild's E with "
                        "GNU ld's libraries and vice versa) are run natively; the quick tier restricts the product "
-                       "to kinds {function, data}, lazy binding, no variant flags and the core forms",
+                       "to kinds {function, data}, lazy binding, no variant flags and the core forms; alias "
+                       "members are additionally linked by ld.lld (3 links) and run as all-lld program (thorough: "
+                       "and as two more mixed programs, wild's E with ld.lld's libraries and vice versa)",
     }
     chk.assumptions = [
         "GNU ld 2.40 + glibc 2.36 ld.so as the reference for where ELF semantics allow views to differ",
+        "alias members: an alias group is judged against the one of GNU ld's / ld.lld 14's program of the same "
+        "member whose address classes are the coarsest (GNU ld pairs only a weak name with its strong definition "
+        "and itself gives a second non-weak name of a copy-relocated object another address; ld.lld gives every "
+        "name the copy's address, which shows the statement is achievable as a whole there); classes not "
+        "comparable: only pairs equal in both are demanded; pairs that differ in the judging program are "
+        "counted, not judged",
         "a link that wild refuses is not a violation of this property (counted under wild_rejects_counted_not_judged)",
         "whether a module links depends only on the entity kind and that module's own uses of it (used to drop "
         "all instances sharing a rejected (kind, module, use-set))",
